@@ -25,8 +25,10 @@ type text struct {
 func H(n string) string { return fmt.Sprintf(`namespace "urn:%s"; prefix %s;`, n, n) }
 
 var pool = []text{
-	{"g.yang", `module g { ` + H("g") + ` typedef t { type string { length "1..9"; } } identity base; leaf gr { type identityref { base base; } } leaf l { type t; } container c { leaf x { type int8; } } grouping gg { leaf gl { type t; } } rpc op; }`, "g", true},
-	{"h.yang", `module h { ` + H("h") + ` import g { prefix g; } identity d { base g:base; } grouping hg { leaf hl { type g:t; } } augment /g:c { leaf y { type g:t; } } augment /g:op/g:input { leaf ai { type string; } } container hc { uses g:gg; leaf r { type identityref { base g:base; } } } deviation /g:l { deviate add { default dd; } } }`, "h", true},
+	{"g.yang", `module g { ` + H("g") + ` typedef t { type string { length "1..9"; } } identity base; leaf gr { type identityref { base base; } } leaf l { type t; } container c { leaf x { type int8; } } grouping gg { leaf gl { type t; } } rpc op; extension note { argument text; } }`, "g", true},
+	{"h.yang", `module h { ` + H("h") + ` import g { prefix g; } identity d { base g:base; } grouping hg { leaf hl { type g:t; } } augment /g:c { leaf y { type g:t; } } augment /g:op/g:input { leaf ai { type string; } } container hc { uses g:gg; leaf r { type identityref { base g:base; } } } deviation /g:l { deviate add { default dd; } }` +
+		// type statements that carry an extension of the imported module: resolving them needs the import
+		` leaf he { type string { g:note "n"; length "1..4"; pattern "a+"; } } typedef ht { type int8 { g:note "m"; range "1..5"; } } leaf hf { type ht; } leaf hu { type union { type ht; type string { g:note "u"; length "2"; } } } }`, "h", true},
 	{"k.yang", `module k { ` + H("k") + ` import h { prefix h; } identity e { base h:d; } container kc { uses h:hg; leaf kr { type identityref { base h:d; } } } }`, "k", true},
 	{"r.yang", `module r { ` + H("r") + ` leaf l { type int8 { range 1..500; } } leaf u { type nosuch; } leaf en { type enumeration { enum a { value 1; } enum b { value 1; } enum c; } } typedef bt { type bits { bit x { position 2; } bit y { position 2; } bit z; } } leaf bl { type bt; } }`, "r", true},
 	{"gm.yang", `module gm { ` + H("gm") + ` include gsub; leaf q { type st; } }`, "gm", true},
